@@ -88,6 +88,7 @@ pub fn run_case(case: &[u8]) -> String {
             43 => crate::query::case_gamespy(&mut rd, 3),
             50 => crate::query::case_game(&mut rd),
             52 => crate::eco::case_eco(&mut rd),
+            53 => crate::eco::case_http_settings(&mut rd),
             33 => crate::query::case_minecraft(&mut rd),
             34 => crate::paths::case_generic_extra(&mut rd),
             30 => crate::idcheck::case_idcheck(&mut rd),
